@@ -172,17 +172,32 @@ def showVerdict : Verdict → String
   | .fail why w => s!"fail {why.replace " " "_"}" ++ (match w with | some p => s!" witness={showRat p.x},{showRat p.y}" | none => "")
   | .internal why => s!"internal {why.replace " " "_"}"
 
-/-- does the pair of operands contain an incidence between different edges: a vertex on (within `tol` of)
-    another edge that it is not an endpoint of, or collinear overlapping edges? -/
+/-- Is the pair of operands ill-conditioned for rounded arithmetic?  (a) a vertex on (within `tol` of)
+    another edge that it is not an endpoint of, or collinear overlapping edges; (b) an edge that rounded
+    arithmetic cannot tell from a vertical one (|dx| ≤ 1e-9 |dy|, dx ≠ 0); (c) two edges that meet at an angle
+    below 1e-6 rad without being parallel. -/
 def hasIncidence (a b : MPoly) (tol : Rat := 0) : Bool :=
   let es := ((allRings a ++ allRings b).flatMap (fun r => ringEdges (dedupConsecutive r))).toArray
   let near (p : Pt) (f : Seg) : Bool :=
     p ≠ f.1 && p ≠ f.2 && (if tol = 0 then onSeg p f else decide (dist2PtSeg p f ≤ tol * tol))
+  let ab (q : Rat) : Rat := if q < 0 then -q else q
+  let nearVertical (e : Seg) : Bool :=
+    let dx := ab (e.2.x - e.1.x)
+    let dy := ab (e.2.y - e.1.y)
+    decide (dx ≠ 0) && decide (dx * 1000000000 ≤ dy)
+  let nearParallel (e f : Seg) : Bool :=
+    let ux := e.2.x - e.1.x
+    let uy := e.2.y - e.1.y
+    let vx := f.2.x - f.1.x
+    let vy := f.2.y - f.1.y
+    let k := ux * vy - uy * vx
+    decide (k ≠ 0) && decide (k * k * 1000000000000 ≤ (ux * ux + uy * uy) * (vx * vx + vy * vy)) && segsTouch e f
+  es.any nearVertical ||
   (List.range es.size).any (fun i => (List.range es.size).any (fun j =>
     if i = j then false else
     let e := es[i]!
     let f := es[j]!
-    collinearOverlap e f || near e.1 f || near e.2 f))
+    collinearOverlap e f || near e.1 f || near e.2 f || (decide (i < j) && nearParallel e f)))
 
 def normRing (r : Ring) (anyDir : Bool) : List String :=
   -- drop the closing vertex and repeated vertices, rotate to the lexicographically smallest start
